@@ -14,6 +14,7 @@ evsave=$(mktemp -d /tmp/try_mutant_ev.XXXXXX); cp -p evidence/*.json $evsave/ 2>
 ./check $prop $tier > $out 2>&1; rc=$?
 end=$(date +%s)
 git -C "$repo" checkout -- .
+git -C "$repo" clean -fdq -- src   # a patch may add files
 cp -p $evsave/*.json evidence/ 2>/dev/null; rm -rf $evsave
 grep -E "violated|VIOLATION|HARNESS|expected:|observed:" $out | cut -c1-260 | head -6
 rm -f $out
